@@ -293,6 +293,7 @@ type Run struct {
 	ifaceSpec *FuncSpec
 	conds     []Term
 	condMark  []int
+	nameCount map[string]int
 	ifaceAssigns []Expr
 }
 
